@@ -65,7 +65,8 @@ Theorem C13_server_transfer : forall BUF, (2 <= BUF)%nat -> N.of_nat BUF < U32_L
   | RErr outs e =>
       CInv BUF (sc_conn y) PLine /\ c_win (sc_conn y) = [] /\
       unsent (sc_conn y) = unsent c ++ flat_map serialize (conts_of outs ++ [bad_request_response e]) /\
-      ys = []
+      ys = [] /\
+      c_parsed (sc_conn y) = [] /\ c_files (sc_conn y) = [] /\ c_pmax (sc_conn y) = c_pmax c
   | ROutOfFuel => False
   end.
 Proof. exact server_read_exact. Qed.
